@@ -1,45 +1,145 @@
 package vsched
 
+import (
+	"fmt"
+	"sort"
+	"strings"
+	"time"
+)
+
 // Stats of one exploration.
 type Stats struct {
-	Executions int
-	Pruned     int
-	States     int
-	Steps      int
-	MaxPoints  int
-	Deadlocks  int
-	Outcomes   map[string]int
+	Executions  int   // complete executions (not cut)
+	Cut         int   // executions cut by state caching
+	States      int   // distinct happens-before state keys seen at switch points
+	Steps       int64 // scheduler steps (transitions)
+	MaxPoints   int
+	MaxThreads  int
+	Deadlocks   int
+	Leaks       int
+	Bound       int  // preemption bound explored completely (-1 = unbounded)
+	Exhaustive  bool // false if a cap (executions, deadline) stopped the search
+	Outcomes    map[string]int
+	KnownHits   map[string]int
+	Preemptions int // maximal number of preemptions in an explored execution
 }
 
-// Explore runs body under every schedule with at most bound preemptions (bound<0: unbounded),
-// calling check after each complete execution. It stops at the first failing check.
-func Explore(bound int, cache bool, maxExec int, body func(), check func(Outcome) string) (Stats, []int, string) {
-	st := Stats{Outcomes: map[string]int{}}
+// Failure is a violating execution.
+type Failure struct {
+	Sig     string
+	Msg     string
+	Choices []int
+}
+
+// Scenario is one closed system: Body builds everything it needs, runs as the main thread and
+// leaves its observations where Check can see them. Check runs after the execution (outside
+// the scheduler) and returns a signature ("" = fine), a message and an outcome label used to
+// count distinct observed outcomes.
+type Scenario struct {
+	Name    string
+	Bound   int // preemption bound, <0 unbounded
+	MaxExec int // 0 = no cap
+	Body    func()
+	Check   func(o *Outcome) (sig, msg, outcome string)
+	Known   func(sig string) bool // listed open finding: count it, treat as a leaf, keep searching
+	NoCache bool
+	Deadline time.Time
+}
+
+// StdVerdict turns the runtime's own verdicts into a signature.
+func StdVerdict(o *Outcome) (sig, msg string) {
+	switch {
+	case o.Panic != nil:
+		return "panic:" + o.PanicSite + ":" + panicClass(fmt.Sprint(o.Panic)), fmt.Sprintf("panic: %v\n%s", o.Panic, trimStack(o.PanicStk))
+	case o.Deadlock:
+		return "deadlock:" + strings.Join(uniq(o.Blocked), "|"), "deadlock; blocked threads: " + strings.Join(o.Blocked, ", ")
+	case o.Livelock:
+		return "livelock:" + strings.Join(uniq(o.Blocked), "|"), "step horizon exceeded; parked threads: " + strings.Join(o.Blocked, ", ")
+	case o.Leaked:
+		return "leak:" + strings.Join(uniq(o.Blocked), "|"), "goroutines still blocked after the main thread finished: " + strings.Join(o.Blocked, ", ")
+	}
+	return "", ""
+}
+
+func uniq(s []string) []string {
+	var r []string
+	for _, x := range s {
+		if len(r) == 0 || r[len(r)-1] != x {
+			r = append(r, x)
+		}
+	}
+	return r
+}
+
+func panicClass(m string) string {
+	// drop numbers so that "index out of range [5] with length 3" is one class
+	var sb strings.Builder
+	for _, r := range m {
+		if r >= '0' && r <= '9' {
+			continue
+		}
+		if r == ' ' {
+			r = '_'
+		}
+		sb.WriteRune(r)
+	}
+	s := sb.String()
+	if len(s) > 60 {
+		s = s[:60]
+	}
+	return s
+}
+
+func trimStack(s string) string {
+	lines := strings.Split(s, "\n")
+	var keep []string
+	for i := 0; i+1 < len(lines); i++ {
+		if strings.Contains(lines[i], "github.com/biogo/hts") && !strings.Contains(lines[i], "/vsched") {
+			keep = append(keep, "  "+strings.TrimSpace(lines[i])+" @ "+strings.TrimSpace(lines[i+1]))
+			if len(keep) >= 10 {
+				break
+			}
+		}
+	}
+	return strings.Join(keep, "\n")
+}
+
+// Replay runs the scenario once with the given choices.
+func Replay(sc *Scenario, choices []int) (Outcome, string) {
+	return Run(Config{Prefix: choices}, sc.Body)
+}
+
+// Explore runs the scenario under every schedule with at most Bound preemptions.
+// It stops at the first failure whose signature is not a known finding.
+func Explore(sc *Scenario) (Stats, *Failure, error) {
+	st := Stats{Outcomes: map[string]int{}, KnownHits: map[string]int{}, Bound: sc.Bound, Exhaustive: true}
+	// determinism guard: the default schedule twice
+	o1, d1 := Run(Config{}, sc.Body)
+	_, _, out1 := sc.Check(&o1)
+	o2, d2 := Run(Config{}, sc.Body)
+	_, _, out2 := sc.Check(&o2)
+	if d1 != "" || d2 != "" || o1.Final != o2.Final || out1 != out2 || len(o1.Points) != len(o2.Points) {
+		return st, nil, fmt.Errorf("scenario %s is not deterministic under a fixed schedule (final %x vs %x, outcome %q vs %q)", sc.Name, o1.Final, o2.Final, out1, out2)
+	}
 	visited := map[uint64]int{}
-	type item struct{ prefix []int }
-	stack := []item{{nil}}
+	stack := [][]int{nil}
 	for len(stack) > 0 {
-		it := stack[len(stack)-1]
+		prefix := stack[len(stack)-1]
 		stack = stack[:len(stack)-1]
-		if maxExec > 0 && st.Executions >= maxExec {
+		if sc.MaxExec > 0 && st.Executions+st.Cut >= sc.MaxExec {
+			st.Exhaustive = false
 			break
 		}
-		// budget used along the prefix is recomputed during the run
-		used := 0
+		if !sc.Deadline.IsZero() && (st.Executions+st.Cut)%64 == 0 && time.Now().After(sc.Deadline) {
+			st.Exhaustive = false
+			break
+		}
 		var visit func(uint64, int) bool
-		var ptsSoFar *[]Point
-		if cache {
-			visit = func(k uint64, idx int) bool {
-				// remaining budget at this state
-				u := 0
-				for _, p := range (*ptsSoFar)[:idx] {
-					if !p.Choice && p.RunEn && p.Chosen != 0 {
-						u++
-					}
-				}
+		if !sc.NoCache {
+			visit = func(k uint64, pre int) bool {
 				rem := 1 << 30
-				if bound >= 0 {
-					rem = bound - u
+				if sc.Bound >= 0 {
+					rem = sc.Bound - pre
 				}
 				if prev, ok := visited[k]; ok && prev >= rem {
 					return true
@@ -48,62 +148,84 @@ func Explore(bound int, cache bool, maxExec int, body func(), check func(Outcome
 				return false
 			}
 		}
-		_ = used
-		var out Outcome
-		// run
-		s := runWith(it.prefix, visit, &ptsSoFar, body)
-		out = s
-		st.Executions++
-		st.Steps += out.Steps
+		out, div := Run(Config{Prefix: prefix, Visit: visit}, sc.Body)
+		if div != "" {
+			return st, nil, fmt.Errorf("scenario %s: %s", sc.Name, div)
+		}
+		st.Steps += int64(out.Steps)
 		if len(out.Points) > st.MaxPoints {
 			st.MaxPoints = len(out.Points)
 		}
+		if out.Threads > st.MaxThreads {
+			st.MaxThreads = out.Threads
+		}
 		if out.Pruned {
-			st.Pruned++
+			st.Cut++
 		} else {
+			st.Executions++
 			if out.Deadlock {
 				st.Deadlocks++
 			}
-			if msg := check(out); msg != "" {
-				ch := make([]int, len(out.Points))
-				for i, p := range out.Points {
-					ch[i] = p.Chosen
+			if out.Leaked {
+				st.Leaks++
+			}
+			sig, msg, label := sc.Check(&out)
+			st.Outcomes[label]++
+			if sig != "" {
+				if sc.Known != nil && sc.Known(sig) {
+					st.KnownHits[sig]++
+				} else {
+					st.States = len(visited)
+					f := &Failure{Sig: sig, Msg: msg, Choices: out.Choices()}
+					// a failure is believed only if it replays identically five times
+					for i := 0; i < 5; i++ {
+						ro, rd := Run(Config{Prefix: f.Choices}, sc.Body)
+						rsig, _, _ := sc.Check(&ro)
+						if rd != "" || rsig != sig || ro.Final != out.Final {
+							return st, nil, fmt.Errorf("scenario %s: failure %q does not replay deterministically (got %q, %s)", sc.Name, sig, rsig, rd)
+						}
+					}
+					return st, f, nil
 				}
-				st.States = len(visited)
-				return st, ch, msg
 			}
 		}
-		// push alternatives
+		// push the alternatives of every point beyond the prefix (deepest last = DFS)
 		pre := 0
 		for i, p := range out.Points {
-			if i >= len(it.prefix) {
-				for alt := len(p.Enabled) - 1; alt >= 1; alt-- {
-					cost := pre
-					if !p.Choice && p.RunEn {
-						cost++
+			if i >= len(prefix) {
+				cost := pre
+				if !p.Choice && p.RunEn {
+					cost++
+				}
+				if sc.Bound < 0 || cost <= sc.Bound {
+					for alt := p.N - 1; alt >= 1; alt-- {
+						np := make([]int, i+1)
+						for j := 0; j < i; j++ {
+							np[j] = out.Points[j].Chosen
+						}
+						np[i] = alt
+						stack = append(stack, np)
 					}
-					if bound >= 0 && cost > bound {
-						continue
-					}
-					np := make([]int, i+1)
-					for j := 0; j < i; j++ {
-						np[j] = out.Points[j].Chosen
-					}
-					np[i] = alt
-					stack = append(stack, item{np})
 				}
 			}
 			if !p.Choice && p.RunEn && p.Chosen != 0 {
 				pre++
 			}
 		}
+		if pre > st.Preemptions {
+			st.Preemptions = pre
+		}
 	}
 	st.States = len(visited)
-	return st, nil, ""
+	return st, nil, nil
 }
 
-func runWith(prefix []int, visit func(uint64, int) bool, pts **[]Point, body func()) Outcome {
-	s := &Sched{toSched: make(chan *Thread), prefix: prefix, visit: visit, maxSteps: 100000}
-	*pts = &s.out.Points
-	return s.run(body)
+// OutcomeList renders the outcome histogram deterministically.
+func (st *Stats) OutcomeList() []string {
+	var r []string
+	for k, v := range st.Outcomes {
+		r = append(r, fmt.Sprintf("%s x%d", k, v))
+	}
+	sort.Strings(r)
+	return r
 }
